@@ -1,0 +1,23 @@
+// Copyright The gittuf Authors
+// SPDX-License-Identifier: Apache-2.0
+
+//go:build verif
+
+// gvc contracts (comment-only, read under the "verif" build tag).
+
+package set
+
+//@ # contracts are stated for the string instantiation, the one gittuf's policy code uses
+//@ define sHas(s *Set[string], k string) bool = s != nil && has(s.contents, k)
+//@ define sLen(s *Set[string]) int = len(s.contents)
+
+//@ func [C13,C05] NewSetFromItems -> (s)
+//@   assigns fresh(Set[string].contents), fresh(map map[string]struct{})
+//@   ensures freshSet: s != nil && fresh(s) && s.contents != nil && fresh(s.contents)
+//@   ensures members: forall k string :: sHas(s, k) <==> (exists i :: 0 <= i && i < len(items) && items[i] == k)
+//@   ensures atMostLen: sLen(s) <= len(items)
+//@   ensures nonEmpty: len(items) > 0 ==> sLen(s) >= 1
+//@   loop 1:
+//@     invariant freshSet: set != nil && fresh(set) && set.contents != nil && fresh(set.contents)
+//@     invariant members: forall k string :: sHas(set, k) <==> (exists i :: 0 <= i && i <= rangeindex && items[i] == k)
+//@     invariant atMost: sLen(set) <= rangeindex + 1 && (rangeindex >= 0 ==> sLen(set) >= 1)
